@@ -551,7 +551,23 @@ def ListClean (cfg : Block.Cfg) (gas : Nat) : Prop :=
 
 theorem list_clean (cfg : Block.Cfg) (gas : Nat) (hT : TokClean cfg gas) (hL : ListClean cfg gas) : ListClean cfg (gas + 1) := by
   intro fw st ld nm acc r h hacc
+  have hstop : ∀ (items : List Item) (fwEnd : FW) (stEnd : St) (rr : List Item × FW × St), ItemsClean items →
+      (Res.ok ((match items with
+        | .mk inner loose i p l n g :: rest => Item.mk inner (decide (inner.length > 1) && loose) i p l n g :: rest
+        | [] => []).reverse, fwEnd, stEnd) : Res _) = .ok rr → ItemsClean rr.1 := by
+    intro items fwEnd stEnd rr hi he
+    cases he
+    cases items with
+    | nil => simp [ItemsClean]
+    | cons x xs =>
+      cases x
+      simp only [ItemsClean, ItemClean] at hi
+      refine itemsClean_reverse _ ?_
+      simp only [ItemsClean, ItemClean]
+      exact hi
   simp only [readList] at h
+  split at h
+  · exact hstop acc _ _ r hacc h
   split at h
   · cases h
   · rename_i il hil
@@ -579,29 +595,13 @@ theorem list_clean (cfg : Block.Cfg) (gas : Nat) (hT : TokClean cfg gas) (hL : L
     · cases h
     · rename_i item itemLeader next fw' st' hres
       have hkw := key item itemLeader next fw' st' hres
-      have hstop : ∀ (items : List Item) (fwEnd : FW) (rr : List Item × FW × St), ItemsClean items →
-          (Res.ok ((match items with
-            | .mk inner loose i p l n g :: rest => Item.mk inner (decide (inner.length > 1) && loose) i p l n g :: rest
-            | [] => []).reverse, fwEnd, st') : Res _) = .ok rr → ItemsClean rr.1 := by
-        intro items fwEnd rr hi he
-        cases he
-        cases items with
-        | nil => simp [ItemsClean]
-        | cons x xs =>
-          cases x
-          simp only [ItemsClean, ItemClean] at hi
-          refine itemsClean_reverse _ ?_
-          simp only [ItemsClean, ItemClean]
-          exact hi
       have hacc' : ItemsClean (item :: acc) := ⟨hkw, hacc⟩
       split at h
       · split at h
-        · exact hstop acc _ r hacc h
-        · split at h
-          · exact hstop _ _ r hacc' h
-          · exact hL _ st' _ _ _ r h hacc'
+        · exact hstop _ _ _ r hacc' h
+        · exact hL _ st' _ _ _ r h hacc'
       · split at h
-        · exact hstop _ _ r hacc' h
+        · exact hstop _ _ _ r hacc' h
         · exact hL _ st' _ _ _ r h hacc'
 
 theorem try_clean (cfg : Block.Cfg) (gas : Nat) (hT : TokClean cfg gas) (hL : ListClean cfg gas) (hY : TryClean cfg gas) :
